@@ -226,7 +226,7 @@ def worlds(tier):
     for h in (0.0, D):
         for fa in fa3:
             for fbm in fb3:
-                for hb in (D,) if q else (0.0, D):
+                for hb in (D,):
                     out.append(({'threads': [[(0, 'acq', None, h)], [(1,) + fa + (0.0,)], [(2,) + fbm + (hb,)]],
                                  'nobj': 3, 'reentrant': False, 'default_timeout': -1, 'coarse': True},
                                 2 if q else 3))
